@@ -221,7 +221,46 @@ func c14judge(w *W, c *c14case, before, after map[string]bool, names []string, c
 	return ok
 }
 
+// c14zone builds a zone whose UTC offset changes by one hour at the given instant (forward: +0 -> +1, else +1 -> +0).
+func c14zone(at time.Time, forward bool) (*time.Location, error) {
+	var b []byte
+	be32 := func(v int32) { b = append(b, byte(v>>24), byte(v>>16), byte(v>>8), byte(v)) }
+	b = append(b, "TZif"...)
+	b = append(b, 0)
+	b = append(b, make([]byte, 15)...)
+	for _, c := range []int32{0, 0, 0, 2, 2, 8} { // isutcnt, isstdcnt, leapcnt, timecnt, typecnt, charcnt
+		be32(c)
+	}
+	be32(1_000_000_000) // transition 0: long ago
+	be32(int32(at.Unix()))
+	first, second := byte(0), byte(1) // type 0 = +1h (summer), type 1 = +0 (standard)
+	if forward {
+		first, second = 1, 0
+	}
+	b = append(b, first, second)
+	be32(3600)
+	b = append(b, 1, 0)
+	be32(0)
+	b = append(b, 0, 4)
+	b = append(b, "SUM\x00STD\x00"...)
+	return time.LoadLocationFromTZData("synthetic-dst", b)
+}
+
 func c14Worker(w *W) {
+	if z := w.Arg("synthdst", ""); z != "" {
+		var dir string
+		var hours int
+		if i := strings.IndexByte(z, ':'); i > 0 {
+			dir = z[:i]
+			fmt.Sscanf(z[i+1:], "%d", &hours)
+		}
+		loc, err := c14zone(time.Now().Add(-time.Duration(hours)*time.Hour).Add(-7*time.Minute), dir == "fwd")
+		if err != nil {
+			w.Inconclusive("synthetic zone: " + err.Error())
+			return
+		}
+		time.Local = loc
+	}
 	base := filepath.Join(w.Spec.Dir, w.Spec.Name+".d")
 	defer os.RemoveAll(base)
 	n := int(w.Spec.N)
@@ -396,7 +435,7 @@ func init() {
 	register(&Prop{
 		ID: "C14", Level: "exploration", MinDistinct: 20, Worker: c14Worker,
 		Rule: "directory states generated per case: 3-10 own rotated files '<name>.<14 digits>', 2-5 sibling '<name>.wf.<ts>' files, 4-11 foreign prefix-sharing or unrelated files from 17 shapes (name.audit.<ts>, name.bak, name.1.gz, 13/15-digit suffixes, name.<ts>.gz, 'name.', 'name', namex.<ts>, upper-case, letters/sign inside the digits, ...), sub-directories incl. one named exactly like an own file; " +
-			"modification times set to T0-age with ages 0, maxAge∓11 min, ∓1 h, far expired, uniformly young; names in {app.log, svc, a.b.c, x-1_y, gw-2006.n1, Jan_02.15}; 1-3 own files whose name carries a recent or future local time while the file itself is old (and vice versa); workers run in six time zones (TZ); maxAge over 1..720 h with emphasis on 1-3 and 590-720; optionally a sibling '<name>.wf' appender cleaning the same directory. The appender is started (current file exists) and the scan runs through the guarded synchronous entry; a second worker kind lets a real 1 s rotation trigger the asynchronous scan and polls the directory. " +
+			"modification times set to T0-age with ages 0, maxAge∓11 min, ∓1 h, far expired, uniformly young; names in {app.log, svc, a.b.c, x-1_y, gw-2006.n1, Jan_02.15}; 1-3 own files whose name carries a recent or future local time while the file itself is old (and vice versa); workers run in six time zones (TZ) and in six synthetic zones whose UTC offset jumps by one hour 5, 30 or 200 hours ago (forwards or backwards); maxAge over 1..720 h with emphasis on 1-3 and 590-720; optionally a sibling '<name>.wf' appender cleaning the same directory. The appender is started (current file exists) and the scan runs through the guarded synchronous entry; a second worker kind lets a real 1 s rotation trigger the asynchronous scan and polls the directory. " +
 			"Oracle: survivors = everything except regular files matching ^<name>\\.\\d{14}$ older than maxAge hours (no file lies within 10 min of the cut-off). In every third case the same appender scans a second time after half of the surviving own files were touched (modification time = now) and maxAge was lowered to 1 h. Non-trivial/distinct = distinct (trigger, name, maxAge band, sibling, something deleted) classes that matched.",
 		Assumptions: []string{"files within 10 minutes of the cut-off are never generated; a case taking longer than that is inconclusive", "modification times are set with os.Chtimes"},
 		Run: func(d *D) {
@@ -408,6 +447,14 @@ func init() {
 				if z := zones[i%len(zones)]; z != "" {
 					s.Env = []string{"TZ=" + z} // rotated file names are written in local time
 				}
+				specs = append(specs, s)
+			}
+			// a daylight-saving switch inside the retention window (synthetic zones, so the check does not depend on today's date):
+			// "older than maxAge hours" is elapsed time, not wall-clock arithmetic
+			for i, z := range []string{"back:5", "fwd:5", "back:30", "fwd:30", "fwd:200", "back:200"} {
+				s := d.NewSpec("sync", fmt.Sprintf("sync-dst-%d", i), 30+i, 16)
+				s.N = d.Pick(150, 2000)
+				s.Args["synthdst"] = z
 				specs = append(specs, s)
 			}
 			for i := 0; i < 4; i++ {
